@@ -426,7 +426,11 @@ func (ck *Checker) Run(cases []Case) {
 		}
 		if ck.samples < 8 && i%(n/3+1) == 0 {
 			ck.samples++
-			ck.Res.AddSample(map[string]any{"stream": c.Stream, "text": c.Text, "go": g, "model": m, "spec": s})
+			st := c.Text
+			if len(st) > 300 {
+				st = st[:300] + fmt.Sprintf("… (%d bytes)", len(c.Text))
+			}
+			ck.Res.AddSample(map[string]any{"stream": c.Stream, "text": st, "go": g, "model": m, "spec": s})
 		}
 		// at most 25 recorded disagreements without a concrete violation and 25 with one, so that a
 		// flood of "both reject, error lists differ" cannot crowd out a text on which the property fails
